@@ -49,6 +49,7 @@ class Run(object):
         self.known = [k for k in load_known() if k['property'] == pid]
         self.assumptions = []
         self.nreplay = 0
+        self._replayed = set()
 
     # ---------------------------------------------------------------- model checking
     def mc(self, module, cfg, expect='ok', workers=16, timeout=1800, extra=(), env=None, note=None,
@@ -124,7 +125,10 @@ class Run(object):
         os.makedirs(REPLAYS, exist_ok=True)
         self.nreplay += 1
         path = os.path.join(REPLAYS, '%s-%d.json' % (self.pid, self.nreplay))
-        if self.nreplay <= 25:
+        clause = info.get('failing_clause')
+        first = clause not in self._replayed
+        self._replayed.add(clause)
+        if self.nreplay <= 25 or first:
             with open(path, 'w') as f:
                 json.dump({'property': self.pid, 'info': info, 'case': obj}, f, default=repr)
         return path
